@@ -175,6 +175,12 @@ def call_spec(name, w, op):
             w.fek_boundary = {'boundary': 4}
         return compute_features, [('sig', w.sig), ('fs', fs), ('f_range', fr)], dict(center_extrema=w.center, threshold_kwargs=w.th_cyc,
                                                                                        find_extrema_kwargs=w.fek_boundary), None
+    if name == 'compute_features[rejected]':
+        # invalid settings (filter far longer than the recording): the call raises; its arguments must survive that too
+        if not hasattr(w, 'fek_bad'):
+            w.fek_bad = {'filter_kwargs': {'n_cycles': 5000}}
+        return compute_features, [('sig', w.sig), ('fs', fs), ('f_range', fr)], dict(center_extrema=['trough', 'peak'][op % 2], threshold_kwargs=w.th_cyc,
+                                                                                       find_extrema_kwargs=w.fek_bad), None
     if name == 'compute_features[defaults]':
         return compute_features, [('sig', w.sig), ('fs', fs), ('f_range', fr)], dict(center_extrema=w.center), None
     if name == 'compute_cyclepoints':
@@ -254,7 +260,7 @@ def call_spec(name, w, op):
 
 
 PRODUCERS = ['compute_features[cycles]', 'compute_features[amp]', 'compute_shape_features', 'compute_cyclepoints', 'find_extrema']
-CALLS = PRODUCERS + ['compute_shape_features[n_cycles]', 'compute_features[boundary-only]', 'compute_features[defaults]', 'compute_features[amp,nosamples]', 'compute_features_2d[0,dict]', 'compute_features_2d[0,list]', 'compute_features_2d[None]', 'compute_features_2d[None,list]',
+CALLS = PRODUCERS + ['compute_shape_features[n_cycles]', 'compute_features[boundary-only]', 'compute_features[defaults]', 'compute_features[rejected]', 'compute_features[amp,nosamples]', 'compute_features_2d[0,dict]', 'compute_features_2d[0,list]', 'compute_features_2d[None]', 'compute_features_2d[None,list]',
                      'compute_features_3d', 'compute_burst_features[cycles]', 'compute_burst_features[amp]', 'compute_amp_fraction',
                      'compute_amp_consistency', 'compute_period_consistency', 'compute_monotonicity', 'compute_burst_fraction', 'find_zerox',
                      'extrema_interpolated_phase', 'recompute_edges', 'limit_df', 'epoch_df', 'drop_samples_df', 'plot_burst_detect_summary',
